@@ -257,20 +257,33 @@ fn udp_out(case: &UdpCase) -> ScenarioOut {
     };
     let dst = SocketAddr::new(dst_ip, 7777);
     let wildcard: IpAddr = if cfg.v6 { IpAddr::V6(Ipv6Addr::UNSPECIFIED) } else { IpAddr::V4(Ipv4Addr::UNSPECIFIED) };
-    let results: Rc<RefCell<Vec<(usize, Result<usize, (String, Option<i32>)>)>>> = Rc::new(RefCell::new(vec![]));
+    // every size goes out through each of the four send paths of the shim:
+    // unconnected send_to / try_send_to and, on a socket connected to the same
+    // destination, send / try_send
+    const PATHS: [&str; 4] = ["send_to", "try_send_to", "connected send", "connected try_send"];
+    let results: Rc<RefCell<Vec<(usize, usize, Result<usize, (String, Option<i32>)>)>>> = Rc::new(RefCell::new(vec![]));
     let clock = Rc::new(RoundClock::default());
     let mut exec = Exec::default();
     {
         let (results, clock, sizes) = (results.clone(), clock.clone(), case.sizes.clone());
         exec.spawner.spawn("udp-sender", a, async move {
             let s = UdpSocket::bind(SocketAddr::new(wildcard, 0)).await.expect("bind");
+            let c = UdpSocket::bind(SocketAddr::new(wildcard, 0)).await.expect("bind");
+            c.connect(dst).await.expect("udp connect");
             for n in sizes {
                 let buf = vec![0xabu8; n];
-                let r = s.send_to(&buf, dst).await;
-                results
-                    .borrow_mut()
-                    .push((n, r.map_err(|e| (format!("{:?}", e.kind()), e.raw_os_error()))));
-                wait_rounds(&clock, 1).await;
+                for path in 0..4usize {
+                    let r = match path {
+                        0 => s.send_to(&buf, dst).await,
+                        1 => s.try_send_to(&buf, dst),
+                        2 => c.send(&buf).await,
+                        _ => c.try_send(&buf),
+                    };
+                    results
+                        .borrow_mut()
+                        .push((n, path, r.map_err(|e| (format!("{:?}", e.kind()), e.raw_os_error()))));
+                    wait_rounds(&clock, 1).await;
+                }
             }
         });
     }
@@ -279,7 +292,7 @@ fn udp_out(case: &UdpCase) -> ScenarioOut {
     let mut complaints: Vec<(String, String)> = vec![];
     let mut seen = 0usize;
     let mut trace = vec![];
-    for _round in 0..case.sizes.len() + 3 {
+    for _round in 0..case.sizes.len() * 4 + 3 {
         clock.advance();
         exec.run_until_stalled();
         let mut wire: Vec<Packet> = vec![];
@@ -294,27 +307,34 @@ fn udp_out(case: &UdpCase) -> ScenarioOut {
         }
         let res = results.borrow();
         while seen < res.len() {
-            let (n, r) = &res[seen];
+            let (n, path, r) = &res[seen];
+            let via = PATHS[*path];
             seen += 1;
             let emitted: Vec<&Packet> = pkts.iter().filter(|p| matches!(p.payload, Transport::Udp(_))).collect();
-            trace.push(format!("send_to({n}) -> {r:?}; {} datagram(s) emitted", emitted.len()));
+            trace.push(format!("{via}({n}) -> {r:?}; {} datagram(s) emitted", emitted.len()));
             out.count("udp_sends", 1);
+            out.count(&format!("udp_sends_via.{}", via.replace(' ', "_")), 1);
             if *n > max {
                 match r {
-                    Err((_, Some(90))) => out.count("udp_oversize_rejected_emsgsize", 1),
+                    Err((_, Some(90))) => {
+                        out.count("udp_oversize_rejected_emsgsize", 1);
+                        if *path >= 2 {
+                            out.count("udp_oversize_rejected_on_connected_socket", 1);
+                        }
+                    }
                     Err((k, c)) => complaints.push((
                         "udp-oversize-wrong-error".into(),
-                        format!("send_to of {n} bytes (limit {max}, mtu {mtu_eff}) failed with {k}/{c:?}, expected raw OS error 90"),
+                        format!("{via} of {n} bytes (limit {max}, mtu {mtu_eff}) failed with {k}/{c:?}, expected raw OS error 90"),
                     )),
                     Ok(k) => complaints.push((
                         "udp-oversize-accepted".into(),
-                        format!("send_to of {n} bytes returned Ok({k}) although the limit for mtu {mtu_eff} is {max}"),
+                        format!("{via} of {n} bytes returned Ok({k}) although the limit for mtu {mtu_eff} is {max}"),
                     )),
                 }
                 if !emitted.is_empty() {
                     complaints.push((
                         "udp-oversize-emitted".into(),
-                        format!("send_to of {n} bytes (limit {max}) put {} datagram(s) on the wire", emitted.len()),
+                        format!("{via} of {n} bytes (limit {max}) put {} datagram(s) on the wire", emitted.len()),
                     ));
                 }
             } else {
@@ -322,7 +342,7 @@ fn udp_out(case: &UdpCase) -> ScenarioOut {
                     Ok(k) if *k == *n => out.count("udp_within_limit_accepted", 1),
                     other => complaints.push((
                         "udp-within-limit-refused".into(),
-                        format!("send_to of {n} bytes (limit {max}) returned {other:?}"),
+                        format!("{via} of {n} bytes (limit {max}) returned {other:?}"),
                     )),
                 }
                 if *n == max {
@@ -331,7 +351,7 @@ fn udp_out(case: &UdpCase) -> ScenarioOut {
                 if emitted.len() != 1 {
                     complaints.push((
                         "udp-emission-count".into(),
-                        format!("send_to of {n} bytes emitted {} datagrams", emitted.len()),
+                        format!("{via} of {n} bytes emitted {} datagrams", emitted.len()),
                     ));
                 }
                 for p in emitted {
@@ -340,7 +360,7 @@ fn udp_out(case: &UdpCase) -> ScenarioOut {
                     if p.size() > mtu_eff || u.payload.len() != *n {
                         complaints.push((
                             "udp-datagram-size".into(),
-                            format!("datagram of size {} (payload {}) for send_to({n}) on mtu {mtu_eff}", p.size(), u.payload.len()),
+                            format!("datagram of size {} (payload {}) for {via}({n}) on mtu {mtu_eff}", p.size(), u.payload.len()),
                         ));
                     }
                 }
@@ -356,7 +376,7 @@ fn udp_out(case: &UdpCase) -> ScenarioOut {
         h.write_str(t);
     }
     out.digest = h.finish();
-    out.nontrivial = trace.len() == case.sizes.len();
+    out.nontrivial = trace.len() == case.sizes.len() * 4;
     out.count("udp_cases", 1);
     out.sample = Some(json!({"part": "udp", "case": case.to_json(), "limit": max, "trace": trace}));
     if let Some((class, detail)) = complaints.first() {
@@ -484,7 +504,7 @@ pub fn run(ctx: &Ctx) -> ! {
         rep,
         Finish {
             level: "exploration",
-            rule: "directed cap/MTU scenarios + mixed-interface cases (every host has a loopback connection and one end of a cross-host connection of the same family, all writers start in the same round, both socket-table orders, loopback_mtu above and below mtu, v4/v6; MSS monitor keyed by the interface the segment leaves from) + seeded walks over mtu/loopback_mtu/send_buf_cap/recv_buf_cap (incl. caps below one MSS, MSS = 1, asymmetric caps), IPv4/IPv6, loopback (packets observed through the hook #3 tap) and cross-host paths with drop/hold/reorder schedules, writers probing try_write against netstat + C06's walks re-judged + UDP send_to around the MTU limit; monitors: payload <= MSS on every segment, bytes beyond the highest ACK delivered to the sender <= last window delivered to it, netstat send_q/recv_q <= caps after every round, API-level conservation, try_write/partial-write/parked-write return values; a TCP run is non-trivial when data segments and window bounds were evaluated and some bound was tight (queue at its cap, zero window, segment of exactly MSS, in-flight equal to the window); distinct = distinct digest of packet trace + API trace",
+            rule: "directed cap/MTU scenarios + mixed-interface cases (every host has a loopback connection and one end of a cross-host connection of the same family, all writers start in the same round, both socket-table orders, loopback_mtu above and below mtu, v4/v6; MSS monitor keyed by the interface the segment leaves from) + seeded walks over mtu/loopback_mtu/send_buf_cap/recv_buf_cap (incl. caps below one MSS, MSS = 1, asymmetric caps), IPv4/IPv6, loopback (packets observed through the hook #3 tap) and cross-host paths with drop/hold/reorder schedules, writers probing try_write against netstat + C06's walks re-judged + UDP payloads around the MTU limit through all four send paths (send_to, try_send_to, and send / try_send on a connected socket), loopback and remote destinations; monitors: payload <= MSS on every segment, bytes beyond the highest ACK delivered to the sender <= last window delivered to it, netstat send_q/recv_q <= caps after every round, API-level conservation, try_write/partial-write/parked-write return values; a TCP run is non-trivial when data segments and window bounds were evaluated and some bound was tight (queue at its cap, zero window, segment of exactly MSS, in-flight equal to the window); distinct = distinct digest of packet trace + API trace",
             assumptions: vec![
                 "window clause: A = highest valid cumulative ACK the driver delivered to the sender, W = window of the last ACK-bearing non-RST segment (SYN/SYN-ACK before that) it delivered, evaluated per side once the wire shows that side established".into(),
                 "netstat is trusted for send_q / recv_q; the API-level conservation checks use only write/read return values and wire ACK numbers".into(),
@@ -514,6 +534,10 @@ pub fn run(ctx: &Ctx) -> ! {
                 "udp_oversize_rejected_emsgsize",
                 "udp_exactly_at_limit",
                 "udp_datagrams_checked",
+                "udp_sends_via.connected_send",
+                "udp_sends_via.connected_try_send",
+                "udp_sends_via.try_send_to",
+                "udp_oversize_rejected_on_connected_socket",
                 "mixed_cases",
                 "mixed_passes_with_both_interfaces",
                 "mixed_loopback_data_segments",
